@@ -61,6 +61,28 @@ class Fut:
         return "<Fut>"
 
 
+class FalsyIter:
+    """non-frame leaf that is falsy (an iterator that knows it has nothing queued): still the leaf"""
+
+    def __init__(self, n):
+        self.n = n
+
+    def __iter__(self):
+        return self
+
+    def __next__(self):
+        if self.n <= 0:
+            raise StopIteration
+        self.n -= 1
+        return "F"
+
+    def __len__(self):
+        return 0
+
+    def __repr__(self):
+        return "<FalsyIter>"
+
+
 class AwaitVia:
     """object whose __await__ returns whatever `fn` returns"""
 
@@ -90,7 +112,7 @@ class AwaitGen:
 
 
 def to_iter(aw):
-    if isinstance(aw, (types.GeneratorType, Fut)) or type(aw).__name__ == "list_iterator":
+    if isinstance(aw, (types.GeneratorType, Fut, FalsyIter)) or type(aw).__name__ == "list_iterator":
         return aw
     if hasattr(aw, "__await__"):
         return aw.__await__()
@@ -214,6 +236,12 @@ def end_aw(b):
     if end == "fut":
         b.leaf = Fut()
         return b.leaf
+
+    if end == "falsyiter":
+        def mkf():
+            b.leaf = FalsyIter(n)
+            return b.leaf
+        return AwaitVia(mkf)
 
     def mk():
         b.leaf = iter(["L"] * n)
